@@ -10,6 +10,8 @@ def reps(case, ctx):
 PROPS = {
     "C20": dict(
         stages=[
+            dict(name="convert-theorems",
+                 gen=dict(runs=[bfs("MC_Convert", "ConvertMrk_q"), bfs("MC_Convert", "ConvertMrk_finding", expect_violation=True)])),
             dict(name="defects", tiers=("thorough",),
                  gen=dict(runs=[bfs("MC_C20", "C20_defect1", expect_violation=True), bfs("MC_C20", "C20_defect2", expect_violation=True)])),
             dict(name="main",
